@@ -286,8 +286,8 @@ def interleaved_blocks(ctx, n, extra=()):
 
 
 def removal_finding(ctx):
-    """known finding F44: after a link removed an atom the residue graph is rebuilt from the atom-level edges, so residue
-    pairs that no bond joins are no longer edges of it and are not reported as missing"""
+    """(F44, repaired) after a link removed an atom the residue graph is regenerated: residue pairs that the requested graph
+    connects and no bond joins are still reported as missing"""
     from polyply.src.graph_utils import find_missing_edges
     text = '\n'.join(['[ moleculetype ]', 'AAA 1', '[ atoms ]', '1 P1 1 AAA A1 1 0.0 72', '2 P1 1 AAA H 2 0.0 1', '[ bonds ]', 'A1 H 1 0.3 1000',
                       '[ moleculetype ]', 'BBB 1', '[ atoms ]', '1 P1 1 BBB B1 1 0.0 72',
@@ -304,7 +304,7 @@ def removal_finding(ctx):
     if (2, 3) not in records:
         ctx.violation('spec', f"residues 2 (BBB) and 3 (CCC) are connected in the requested residue graph and joined by no bond, but not reported as "
                       f"missing (records {records}): the AAA-BBB link removed an atom and the residue graph was rebuilt from the atom-level edges",
-                      {'finding_probe': 'F44'}, finding='F44')
+                      {'finding_probe': 'F44'})
 
 
 def gate(ctx):
